@@ -1495,12 +1495,32 @@ pub fn generate(seed: u64, tier: Tier) -> Case {
                     let i = rng.below(files.len());
                     // Names that nest when they are read as part of a type path: angle brackets,
                     // function types (whose `->` is not a closing bracket), parentheses, arrays.
-                    let unit = *rng.pick(&["a<", "a<fn()->", "a<(", "a<[", "a<*const "]);
+                    let unit = *rng.pick(&[
+                        "a<", "a<fn()->", "a<(", "a<[", "a<*const ", "a<{", "a<{!", "a<{-", "a<{||", "a<{&",
+                    ]);
                     let levels = (*rng.pick(&[20usize, 60, 100])).min(250 / unit.len());
                     let deep = format!("{}a", unit.repeat(levels));
                     let seg = if rng.chance(1, 6) { deep.as_str() } else { *rng.pick(&HOSTILE_SEGMENTS) };
                     let old = files[i].0.trim_end_matches(".pyxis").to_string();
                     let mut segs: Vec<String> = old.split('/').map(|s| s.to_string()).collect();
+                    // Or brackets that open in one directory name and close in the next.
+                    if seg == deep && rng.chance(1, 3) {
+                        let (open, close) = *rng.pick(&[("{", "}"), ("(", ")"), ("[", "]"), ("{(", ")}")]);
+                        let k = *rng.pick(&[40usize, 120, 240]) / open.len();
+                        let stem = segs.pop().unwrap_or_else(|| "m".into());
+                        segs = vec![
+                            format!("a<{}x", open.repeat(k)),
+                            format!("{}>", close.repeat(k)),
+                            stem,
+                        ];
+                        let new = format!("{}.pyxis", segs.join("/"));
+                        if files.iter().any(|(p, _)| *p == new) {
+                            false
+                        } else {
+                            files[i].0 = new;
+                            true
+                        }
+                    } else {
                     // Sometimes every segment nests, in a path of three or four segments.
                     if seg == deep && rng.chance(1, 2) {
                         while segs.len() < 3 {
@@ -1528,6 +1548,7 @@ pub fn generate(seed: u64, tier: Tier) -> Case {
                     } else {
                         files[i].0 = new;
                         true
+                    }
                     }
                 }
             }
